@@ -95,7 +95,10 @@ private theorem collect_err_aux (doc : Doc) : ∀ (acc : Collected) (e : Err), d
 theorem collect_rejects_sdl (doc : Doc) (e : Err) (h : collectDefinitions doc = .error e) : e = .lib .sdl :=
   collect_err_aux doc {} e h
 
-/-- A second definition of a type name is rejected. -/
+/-- A second definition of a type name is rejected — by ONE `collectStep` from an accumulator that already has the name
+    (`pre` is unused; the statement does not mention `build`).  The statement about the builder is
+    `build_rejects_dup_type` (Props/C11_reject_complete.lean): `¬ Nodup (type names) → build doc ie add = .error SDLError`,
+    with `collect_ok_rules` the converse of `collect_ok`. -/
 theorem collect_rejects_dup_type (pre : Doc) (t t' : TypeDef) (post : Doc) (hn : t'.name = t.name)
     (acc : Collected) (hacc : acc.types.any (·.name == t.name) = true) :
     ∃ e, ([Def.type t'] ++ post).foldlM collectStep acc = .error e := by
